@@ -226,13 +226,16 @@ func yieldHook(point string) {
 	th.park(r, point, "")
 }
 
-func (th *thread) park(r *run, point, info string) {
+// park reports true when the schedule is over: protocol code then runs on freely to its end, and the
+// harness-level loops (next With call, Commit) stop instead of starting something new
+func (th *thread) park(r *run, point, info string) bool {
 	th.lastPt = point
 	if r.quit.Load() {
-		return // the schedule is over: run on freely so that the goroutine can end
+		return true
 	}
 	r.events <- event{th, point, info}
 	<-th.resume
+	return r.quit.Load()
 }
 
 // end of a schedule: every parked goroutine is let go (those blocked in a deadlock stay behind)
@@ -303,7 +306,9 @@ func (r *run) start() {
 			if th.worker {
 				r.workerBody(th)
 			} else {
-				th.park(r, "H.cWait", "")
+				if th.park(r, "H.cWait", "") {
+					return
+				}
 				r.txs[th.tx].Commit(r.c.wl[th.tx].fail)
 				th.done = true
 				th.park(r, "H.done", "")
@@ -324,10 +329,12 @@ func (r *run) workerBody(th *thread) {
 	for k, a := range th.prog {
 		th.k = k
 		th.cur = a
+		info := ret
 		if k == 0 {
-			th.park(r, "H.idle", "")
-		} else {
-			th.park(r, "H.idle", ret)
+			info = ""
+		}
+		if th.park(r, "H.idle", info) {
+			return
 		}
 		a := a
 		createFn := func() (cache.Cachable, error) {
